@@ -207,14 +207,14 @@ def fresh_and_pure(ctx, R, f, what):
     decos = [d for d in f.decorators if any(c in d for c in CACHE_DECOS)] + ["%s (keeps `%s` in a closure)" % dc for dc in closure_cache_decorators(prog, f)]
     ctx.check(not decos, R, f, f.node, "%s is not memoised" % what,
               "%s is wrapped by %s: every caller receives the same array object, so an in-place modification by one caller "
-              "corrupts what later callers get" % (what, decos))
+              "corrupts what later callers get" % (what, decos), robust=True)
     # callees in the package reachable in one hop
     for c in astq.func_calls(f):
         t = prog.resolve(f.module, c.func, f)
         if hasattr(t, "decorators"):
             decos = [d for d in t.decorators if any(k in d for k in CACHE_DECOS)]
             ctx.check(not decos, R, f, c, "%s does not obtain its result from a memoised helper" % what,
-                      "%s returns the result of %s, which is memoised (%s): callers share one array object" % (what, t.short, decos))
+                      "%s returns the result of %s, which is memoised (%s): callers share one array object" % (what, t.short, decos), robust=True)
     # no writes to instance or module state
     if f.cls is not None and f.params:
         s = f.params[0]
@@ -229,17 +229,17 @@ def fresh_and_pure(ctx, R, f, what):
                 b = astq.base_name(t)
                 if b == s:
                     ctx.bad(R, f, n, "%s writes instance state (%s); the response must be a function of the constructor's parameters only, "
-                            "and cached arrays are shared between callers" % (what, astq.text(t)), "%s keeps no state" % what)
+                            "and cached arrays are shared between callers" % (what, astq.text(t)), "%s keeps no state" % what, robust=True)
             if isinstance(n, (ast.Global, ast.Nonlocal)):
-                ctx.bad(R, f, n, "%s writes module state" % what, "%s keeps no state" % what)
+                ctx.bad(R, f, n, "%s writes module state" % what, "%s keeps no state" % what, robust=True)
             if isinstance(n, ast.Call) and isinstance(n.func, ast.Attribute) and n.func.attr in ("setdefault", "update", "append", "__setitem__") \
                     and astq.base_name(n.func.value) == s:
-                ctx.bad(R, f, n, "%s writes instance state (%s)" % (what, astq.text(n)[:60]), "%s keeps no state" % what)
+                ctx.bad(R, f, n, "%s writes instance state (%s)" % (what, astq.text(n)[:60]), "%s keeps no state" % what, robust=True)
     eff = Effects(prog)
     res = eff._analyse(f, tracked=None)
     shared = [r for r in res["returns"] if r[0] in ("self", "param")]
     ctx.check(not shared, R, f, f.node, "%s returns a fresh array" % what,
-              "%s may return storage shared with %s" % (what, sorted(shared)))
+              "%s may return storage shared with %s" % (what, sorted(shared)), robust=True)
 
 
 def no_shared_state(ctx, R, f, what, allow_self=False):
@@ -248,14 +248,14 @@ def no_shared_state(ctx, R, f, what, allow_self=False):
     what was computed before (another rate, another configuration) - not on the arguments alone."""
     prog = ctx.prog
     decos = [d for d in f.decorators if any(c in d for c in CACHE_DECOS)] + ["%s (keeps `%s` in a closure)" % dc for dc in closure_cache_decorators(prog, f)]
-    ctx.check(not decos, R, f, f.node, "%s is not memoised" % what, "%s is wrapped by %s: its result is computed once per argument tuple and shared afterwards" % (what, decos))
+    ctx.check(not decos, R, f, f.node, "%s is not memoised" % what, "%s is wrapped by %s: its result is computed once per argument tuple and shared afterwards" % (what, decos), robust=True)
     for c in astq.func_calls(f):
         t = prog.resolve(f.module, c.func, f)
         if hasattr(t, "decorators"):
             decos = [d for d in t.decorators if any(k in d for k in CACHE_DECOS)]
             ctx.check(not decos, R, f, c, "%s does not go through a memoised helper" % what,
                       "%s calls %s, which is memoised (%s): a result computed for an earlier call with the same key - but possibly another "
-                      "sampling rate / default / configuration not in the key - is reused" % (what, getattr(t, "short", "?"), decos))
+                      "sampling rate / default / configuration not in the key - is reused" % (what, getattr(t, "short", "?"), decos), robust=True)
     from ..alpha import locals_of, params_of
     loc = locals_of(f.node) | params_of(f.node)
     selfn = f.params[0] if (f.cls is not None and f.params and not f.is_staticmethod) else None
@@ -267,7 +267,7 @@ def no_shared_state(ctx, R, f, what, allow_self=False):
         elif isinstance(n, ast.AugAssign):
             tg = [n.target]
         elif isinstance(n, (ast.Global, ast.Nonlocal)):
-            ctx.bad(R, f, n, "%s rebinds module state (%s)" % (what, ", ".join(n.names)), "%s keeps no state between calls" % what)
+            ctx.bad(R, f, n, "%s rebinds module state (%s)" % (what, ", ".join(n.names)), "%s keeps no state between calls" % what, robust=True)
         recv = None
         if isinstance(n, ast.Call) and isinstance(n.func, ast.Attribute) and n.func.attr in ("setdefault", "update", "append", "add", "extend", "insert", "pop", "clear", "__setitem__"):
             recv = n.func.value
@@ -279,11 +279,11 @@ def no_shared_state(ctx, R, f, what, allow_self=False):
                 continue
             if b == selfn:
                 if not allow_self:
-                    ctx.bad(R, f, n, "%s writes instance state (%s): what it returns afterwards depends on earlier calls" % (what, astq.text(t)[:60]), "%s keeps no state between calls" % what)
+                    ctx.bad(R, f, n, "%s writes instance state (%s): what it returns afterwards depends on earlier calls" % (what, astq.text(t)[:60]), "%s keeps no state between calls" % what, robust=True)
                 continue
             if b not in loc:
                 ctx.bad(R, f, n, "%s writes %s, a class- or module-level object shared by every instance and call: values cached there for one "
-                        "configuration (sampling rate, threshold, axis) are served to another" % (what, astq.text(t)[:60]), "%s keeps no state between calls" % what)
+                        "configuration (sampling rate, threshold, axis) are served to another" % (what, astq.text(t)[:60]), "%s keeps no state between calls" % what, robust=True)
 
 
 def windows(ctx, R="R-C20-windows"):
